@@ -1102,31 +1102,38 @@ func singles(vals []int64) [][]int64 {
 
 const block = 4096 // calls per exhaustive case
 
-// every value of an 8 or 16 bit type for the one-argument functions
+// every value of an 8 or 16 bit type for the one-argument functions. Every block goes to the direct
+// oracle; all of them also go to the model, except that the quick tier sends only the blocks at the
+// ends and around the middle (zero of a signed type, 2^(w-1) of an unsigned one) for Abs and Clamp01.
 func exhaustiveUnary(c *core.Ctx, t tinfo) {
 	min, _ := t.minMax()
 	lo, total := min.Int64(), 1<<uint(t.w)
 	for _, fn := range []string{"Abs", "Clamp01", "Digits10", "DigitsSign10"} {
-		for off := 0; off < total; off += block {
+		nblocks := (total + block - 1) / block
+		for k, off := 0, 0; off < total; k, off = k+1, off+block {
 			n := block
 			if total-off < n {
 				n = total - off
 			}
-			exec(c, Case{Fn: fn, Ty: t.name, Dims: []Dim{{Lo: lo + int64(off), N: n}}})
+			edge := k == 0 || k == nblocks-1 || k == nblocks/2 || k == nblocks/2-1
+			oracleOnly := c.Tier == "quick" && (fn == "Abs" || fn == "Clamp01") && !edge
+			exec(c, Case{Fn: fn, Ty: t.name, Dims: []Dim{{Lo: lo + int64(off), N: n}}, Oracle: oracleOnly})
 		}
 	}
 }
 
-// every pair of values of an 8 bit type for the two-argument functions, and
-// Clamp with (lo, hi) from a boundary set against every v
+// every pair of values of an 8 bit type for the two-argument functions (direct oracle: all; model:
+// all in the thorough tier, 6 of the 16 row blocks — ends, middle, two more — in the quick tier;
+// Compare, Less, Coal reach the model through the samples only), and Clamp with (lo, hi) from a
+// boundary set against every v
 func exhaustivePairs(c *core.Ctx, t tinfo) {
 	min, _ := t.minMax()
 	lo := min.Int64()
 	rows := block / 256
 	for _, fn := range []string{"Min", "Max", "Sum", "Product", "Compare", "Less", "Coal"} {
-		// Compare, Less, Coal: the pair table goes to the direct oracle only (they reach the model through the samples)
-		oracleOnly := fn == "Compare" || fn == "Less" || fn == "Coal"
-		for off := 0; off < 256; off += rows {
+		for k, off := 0, 0; off < 256; k, off = k+1, off+rows {
+			oracleOnly := fn == "Compare" || fn == "Less" || fn == "Coal" ||
+				(c.Tier == "quick" && !(k == 0 || k == 3 || k == 7 || k == 8 || k == 12 || k == 15))
 			exec(c, Case{Fn: fn, Ty: t.name, Dims: []Dim{{Lo: lo + int64(off), N: rows}, {Lo: lo, N: 256}}, Oracle: oracleOnly})
 		}
 	}
@@ -1241,9 +1248,15 @@ func run(c *core.Ctx) {
 	tu8, _ := lookup("uint8")
 	sweepClamp8[uint8](c, tu8)
 	c.Exhaustive = true
-	c.Note("exhaustive: every value of int8/uint8/int16/uint16 for Abs, Clamp01, Digits10, DigitsSign10; every pair of int8/uint8 values " +
-		"for Min, Max, Sum, Product; Clamp for every int8/uint8 v against 13x13 boundary (lo,hi) — all compared with the model and the direct oracle; " +
-		"every pair for Compare, Less, Coal and every (v,lo,hi) triple of int8 and uint8 for Clamp against the direct oracle only (the 2 x 2^24 Clamp calls are not in 'evaluations')")
+	c.Note("exhaustive, direct oracle: every value of int8/uint8/int16/uint16 for Abs, Clamp01, Digits10, DigitsSign10; every pair of int8/uint8 values " +
+		"for Min, Max, Sum, Product, Compare, Less, Coal; every (v,lo,hi) triple of int8 and uint8 for Clamp (the 2 x 2^24 Clamp calls are not in 'evaluations')")
+	if c.Tier == "quick" {
+		c.Note("compared with the model (quick tier): every int8/uint8/int16/uint16 value for Digits10, DigitsSign10; every int8/uint8 value and the 4 blocks of 4096 " +
+			"int16/uint16 values at the ends and around the middle for Abs, Clamp01; 96 of the 256 rows (ends, middle, two more blocks) of the int8/uint8 pair tables of " +
+			"Min, Max, Sum, Product; Clamp of every int8/uint8 v against 13x13 boundary (lo,hi); the thorough tier sends every block")
+	} else {
+		c.Note("compared with the model: all of the above except the pair tables of Compare, Less, Coal and the Clamp triples (Clamp: every v against 13x13 boundary (lo,hi))")
+	}
 	// 2. boundary-dense and random samples of every type
 	n := c.N(400, 2000, 3000)
 	for _, t := range typeList {
